@@ -55,6 +55,14 @@ func constIntOf(info *types.Info, e ast.Expr) (int64, bool) {
 }
 
 func runC10(w *World, r *Report) {
+	r.Rule("shadow", "no := in an inner scope re-declares a same-typed variable of the function that is read afterwards (or a named result): the value computed there would be lost", 1)
+	shadowRule(w, r, "shadow", func(fi *FuncInfo) bool {
+		return fi.Pkg.Types.Name() == "util" || fi.Pkg.Types.Name() == "openflow13" || fi.Pkg.Types.Name() == "common"
+	})
+	r.Rule("typednil-var", "a pointer result that can be a bare nil is not assigned to an interface-typed variable (a typed nil passes == nil tests the wrong way)", 1)
+	typedNilVarRule(w, r, "typednil-var", func(fi *FuncInfo) bool {
+		return fi.Pkg.Types.Name() == "openflow13" || fi.Pkg.Types.Name() == "common" || fi.Pkg.Types.Name() == "util"
+	})
 	r.Rule("alive", "the stream goroutines cannot panic on a failed call's nil result or on a short byte slice handed to a helper", 2)
 	streamAliveRule(w, r, "alive")
 	r.Rule("stateless", "the stream keeps no package-level state shared between connections (a pool, a cache): frames of one connection are not taken by the parsers of another", 8)
